@@ -29,3 +29,19 @@ Definition spec_grid_mod (X Y : Z) : Z := X mod Y.
    floor(x / y), the largest integer value not greater than x / y"): on the grid,
    the largest multiple of 2^1074 not above Q *)
 Definition spec_grid_floor (Q : Z) : Z := (Q / scale) * scale.
+
+(* f is the binary64 value nearest (ties to even) to the rational number
+   (N / D) * 2^-1074, D > 0: distances to candidates w are compared after
+   multiplying by D, |N - w * D|, so no division is needed.
+   The exact quotient of two floats with grid values X and Y <> 0 is
+   (X / Y) = ((X * 2^1074 * sgn Y) / |Y|) * 2^-1074. *)
+Definition rounds_ratio_to_nearest_even (N D : Z) (f : spec_float) : Prop :=
+  if overflow_threshold * scale * D <=? Z.abs N then f = S754_infinity (N <? 0)
+  else
+    valid_binary 53 1024 f = true /\
+    exists v, scaled_val f = Some v /\
+      (forall w, b64_scaled w -> Z.abs (N - v * D) <= Z.abs (N - w * D)) /\
+      (forall w, b64_scaled w -> w <> v -> Z.abs (N - w * D) = Z.abs (N - v * D) -> mantissa_even f = true).
+
+Definition quotient_num (X Y : Z) : Z := X * scale * Z.sgn Y.
+Definition quotient_den (Y : Z) : Z := Z.abs Y.
